@@ -8,6 +8,7 @@ package snaps
 
 import (
 	"fmt"
+	"os"
 	"strconv"
 	"strings"
 	"testing"
@@ -97,4 +98,110 @@ func TestC02_HugeLineCounts(t *testing.T) {
 		}
 		return checkC02(c)
 	}})
+}
+
+// ---- C16 for big documents: a report / export of 10 000 - 33 000 rows (one line per row in the stored layout) with one
+// masked member; the variants differ at the masked member only, or at ONE row near the start, in the middle, just behind
+// row 10 000, or at the very end.
+
+type hugeDocCase struct {
+	Kind    string `json:"kind"` // json | sjson | yaml
+	Rows    int    `json:"rows"`
+	DiffRow int    `json:"row_that_differs_in_the_unmasked_variant"`
+}
+
+func (h hugeDocCase) doc(stamp string, changed int) string {
+	var sb strings.Builder
+	if h.Kind == "yaml" {
+		sb.WriteString("generatedAt: " + stamp + "\nrows:\n")
+		for i := 0; i < h.Rows; i++ {
+			if i == changed {
+				sb.WriteString("  - changed\n")
+				continue
+			}
+			sb.WriteString("  - r" + strconv.Itoa(i) + "\n")
+		}
+		return sb.String()
+	}
+	sb.WriteString(`{"generatedAt":"` + stamp + `","rows":[`)
+	for i := 0; i < h.Rows; i++ {
+		if i > 0 {
+			sb.WriteByte(',')
+		}
+		if i == changed {
+			sb.WriteString(`"changed"`)
+			continue
+		}
+		sb.WriteString(strconv.Itoa(i))
+	}
+	sb.WriteString("]}")
+	return sb.String()
+}
+
+func checkHugeDoc(h hugeDocCase) error {
+	root := scratchDir()
+	defer os.RemoveAll(root)
+	path := "generatedAt"
+	if h.Kind == "yaml" {
+		path = "$.generatedAt"
+	}
+	spec := CfgSpec{Dir: "snaps", Filename: "f"}
+	if h.Kind == "sjson" {
+		spec.Filename = ""
+	}
+	call := func(doc string) Call {
+		return Call{API: h.Kind, Doc: BS(doc), Form: "string", Matchers: []MatcherSpec{{Kind: "any", Paths: []string{path}}}}
+	}
+	newProcess(Mode{})
+	ft := newFakeT("TestHugeDoc")
+	r := call(h.doc("2026-01-01T00:00:00Z", -1)).invoke(spec.build(root), ft)
+	ft.finish()
+	if out, err := outcomeOf(r); err != nil || out != oAdded {
+		return fmt.Errorf("recording: outcome %q err %v errors=%q", out, err, clipAll(r.Errors))
+	}
+	for _, v := range []struct {
+		stamp string
+		row   int
+		want  string
+	}{{"2027-02-02T10:10:10Z", -1, oPassed}, {"2026-01-01T00:00:00Z", h.DiffRow, oFailed}, {"2027-02-02T10:10:10Z", h.DiffRow, oFailed}} {
+		newProcess(Mode{CI: true})
+		ft = newFakeT("TestHugeDoc")
+		r = call(h.doc(v.stamp, v.row)).invoke(spec.build(root), ft)
+		ft.finish()
+		if out, err := outcomeOf(r); err != nil || out != v.want {
+			return fmt.Errorf("%d rows, variant (masked member %q, row that differs: %d): outcome %q err %v, want %s", h.Rows, v.stamp, v.row, out, err, v.want)
+		}
+	}
+	return nil
+}
+
+func TestC16_HugeDocument(t *testing.T) {
+	nshards, _ := strconv.Atoi(getenv("VERIF_NSHARDS", "1"))
+	shard, _ := strconv.Atoi(getenv("VERIF_SHARD", "0"))
+	var cases []hugeDocCase
+	for k, rows := range []int{10050, 12000, 20000, 33000} {
+		for j, at := range []int{3, rows / 2, 10001, rows - 1} {
+			if !tierThorough() && (k+j)%2 == 1 {
+				continue
+			}
+			cases = append(cases, hugeDocCase{Kind: []string{"json", "yaml", "sjson"}[(k+j)%3], Rows: rows, DiffRow: at})
+		}
+	}
+	p := prop[hugeDocCase]{property: "C16", check: checkHugeDoc, classify: func(h hugeDocCase) ([]string, bool) {
+		cls := []string{"kind_" + h.Kind, "document_of_more_than_10000_lines"}
+		if h.DiffRow > 10000 {
+			cls = append(cls, "difference_behind_line_10000")
+		}
+		return cls, true
+	}}
+	p.enumerate(t, func(yield func(hugeDocCase) bool) {
+		for i, h := range cases {
+			if i%nshards != shard {
+				continue
+			}
+			if !yield(h) {
+				return
+			}
+		}
+	})
 }
